@@ -2644,6 +2644,11 @@ func errorsReturnedRule(r *Report, f *ssa.Function, exact bool) {
 						}
 						nret++
 						for _, v := range retVals(ret, res.Len()-1) {
+							// returning the very value whose non-nil edge this is (a result variable that
+							// merges several failures) is returning an error
+							if bin, isBin := t.If.Cond.(*ssa.BinOp); isBin && (bin.X == v || bin.Y == v) {
+								continue
+							}
 							for _, l := range resolveOnPath(v, p) {
 								// what leaves on the failure edge is this error, a wrapping of it, or a
 								// fresh error: not nil, and not the outcome of a later step
@@ -2655,6 +2660,9 @@ func errorsReturnedRule(r *Report, f *ssa.Function, exact bool) {
 								}
 								if !isE && !isFreshErr(l) {
 									okPol = false
+									if os.Getenv("VERIF_DEBUG") != "" {
+										fmt.Fprintf(os.Stderr, "POLARITY %s %s: path returns %s (%T) via %v\n", fnName(f), nm, l, l, p)
+									}
 								}
 							}
 						}
@@ -3226,4 +3234,167 @@ func decide(b *ssa.BasicBlock, leaf func(ssa.Value) (bool, bool)) (*ssa.BasicBlo
 		}
 	}
 	return nil, false
+}
+
+// natural loops: for every back edge P -> H (H dominates P) the set of blocks
+// that can reach P without passing through H, plus H.
+type natLoop struct {
+	Head   *ssa.BasicBlock
+	Blocks map[*ssa.BasicBlock]bool
+}
+
+func natLoops(f *ssa.Function) []natLoop {
+	var out []natLoop
+	byHead := map[*ssa.BasicBlock]*natLoop{}
+	for _, b := range f.Blocks {
+		for _, s := range b.Succs {
+			if !s.Dominates(b) {
+				continue
+			}
+			l := byHead[s]
+			if l == nil {
+				out = append(out, natLoop{Head: s, Blocks: map[*ssa.BasicBlock]bool{s: true}})
+				l = &out[len(out)-1]
+				byHead[s] = l
+			}
+			var walk func(x *ssa.BasicBlock)
+			walk = func(x *ssa.BasicBlock) {
+				if l.Blocks[x] {
+					return
+				}
+				l.Blocks[x] = true
+				for _, p := range x.Preds {
+					walk(p)
+				}
+			}
+			walk(b)
+		}
+	}
+	// byHead pointers may dangle after append growth: rebuild from out is unnecessary here
+	// because each natLoop holds its own map
+	return out
+}
+
+// scanLoopsExhaustiveRule: a loop that examines a list of values looks at all
+// of them: the only ways out of each loop of f are its head (the list is
+// exhausted) and edges that leave the function (return). A `break` into the
+// code after the loop stops the examination at some value and lets the rest
+// pass unexamined.
+func scanLoopsExhaustiveRule(r *Report, f *ssa.Function, why string) {
+	if f == nil || f.Blocks == nil {
+		return
+	}
+	r.Touch(f)
+	loops := natLoops(f)
+	n := 0
+	for _, l := range loops {
+		n++
+		bad := token.NoPos
+		for b := range l.Blocks {
+			if b == l.Head {
+				continue
+			}
+			for _, s := range b.Succs {
+				if l.Blocks[s] {
+					continue
+				}
+				// leaving the loop from its body: fine when every path from there returns
+				// without rejoining code that follows the loop ... i.e. the target is not
+				// reachable from the head's own exit
+				if !leavesFunction(s, l) && !exitReportsFinding(b, s) {
+					bad = b.Instrs[len(b.Instrs)-1].Pos()
+					if bad == token.NoPos {
+						bad = f.Pos()
+					}
+				}
+			}
+		}
+		r.Decide("path", fmt.Sprintf("%s: loop #%d examines every value", fnName(f), n), bad == token.NoPos, "the loop is left only at its head or by returning", why, bad)
+	}
+	if n == 0 {
+		r.Note("%s: no loop", fnName(f))
+	}
+}
+
+// leavesFunction: from block s (outside loop l) no block reachable from the
+// loop head's regular exit is reached, i.e. s is on a path that only returns.
+func leavesFunction(s *ssa.BasicBlock, l natLoop) bool {
+	// blocks reachable from the head's exits
+	after := map[*ssa.BasicBlock]bool{}
+	var walk func(x *ssa.BasicBlock)
+	walk = func(x *ssa.BasicBlock) {
+		if after[x] || l.Blocks[x] {
+			return
+		}
+		after[x] = true
+		for _, y := range x.Succs {
+			walk(y)
+		}
+	}
+	for _, e := range l.Head.Succs {
+		if !l.Blocks[e] {
+			walk(e)
+		}
+	}
+	// an exit target that is itself (or leads into) the code after the loop is a break
+	seen := map[*ssa.BasicBlock]bool{}
+	var reach func(x *ssa.BasicBlock) bool
+	reach = func(x *ssa.BasicBlock) bool {
+		if seen[x] {
+			return false
+		}
+		seen[x] = true
+		if after[x] {
+			return true
+		}
+		for _, y := range x.Succs {
+			if reach(y) {
+				return true
+			}
+		}
+		return false
+	}
+	return !reach(s)
+}
+
+// exitReportsFinding: every feasible path from the CFG edge b -> s ends in a
+// return that reports something (a non-nil error, or true for a predicate):
+// the loop was left because the scan found what it was looking for, which is
+// what an early `return err` looks like after a helper has been inlined
+// (result variables set, break, `if !ok { return err }`).
+func exitReportsFinding(b, s *ssa.BasicBlock) bool {
+	f := b.Parent()
+	res := f.Signature.Results()
+	if res.Len() == 0 {
+		return false
+	}
+	last := res.Len() - 1
+	paths, ok := blockPathsE(b, s, 4000)
+	if !ok || len(paths) == 0 {
+		return false
+	}
+	for _, p := range paths {
+		end := p[len(p)-1]
+		ret, isRet := end.Instrs[len(end.Instrs)-1].(*ssa.Return)
+		if !isRet {
+			return false
+		}
+		for _, v := range retVals(ret, last) {
+			for _, l := range resolveOnPath(v, p) {
+				if isErrorType(res.At(last).Type()) {
+					if isNilConst(l) {
+						return false
+					}
+					if !isFreshErr(l) {
+						if _, isEx := l.(*ssa.Extract); !isEx {
+							return false
+						}
+					}
+				} else if k, isK := constBool(l); !isK || !k {
+					return false
+				}
+			}
+		}
+	}
+	return true
 }
